@@ -26,7 +26,8 @@ SeqSet(q) == {q[k] : k \in DOMAIN q}
 (* the values of variable k of program pr: integers -B..B, or - for an array variable (pr.kinds[k] = "arr", programs of
    tools/proggen.py array_live_program) - every tuple of pr.ncells integer cells: changing a dead ARRAY variable means
    changing the content of at least one of its cells *)
-RangeOf(pr, k) == IF "kinds" \in DOMAIN pr /\ pr.kinds[k] = "arr" THEN [1..pr.ncells -> (-B)..B] ELSE (-B)..B
+RangeOf(pr, k) == IF "kinds" \in DOMAIN pr /\ pr.kinds[k] = "arr" THEN [1..pr.ncells -> (-B)..B]
+                  ELSE IF "kinds" \in DOMAIN pr /\ pr.kinds[k] = "bool" THEN 0..1 ELSE (-B)..B
 RECURSIVE StatesN(_, _)
 StatesN(pr, m) == IF m = 0 THEN {<<>>} ELSE {Append(q, w) : q \in StatesN(pr, m - 1), w \in RangeOf(pr, m)}
 StatesOf(pr) == IF "kinds" \in DOMAIN pr THEN StatesN(pr, pr.nv) ELSE [1..pr.nv -> (-B)..B]
@@ -46,9 +47,13 @@ StepBoth ==
   /\ ~AtEnd /\ n < MaxSteps
   /\ LET st == Stmts[i]
      IN IF st.op = "havoc"
-          THEN \E w \in (-B)..B : s1' = [s1 EXCEPT ![st.x] = w] /\ s2' = [s2 EXCEPT ![st.x] = w]
-          ELSE /\ s1' \in Succ(st, s1, U, LAMBDA x : (-B)..B)
-               /\ s2' \in Succ(st, s2, U, LAMBDA x : (-B)..B)
+          THEN \E w \in RangeOf(P, st.x) : s1' = [s1 EXCEPT ![st.x] = w] /\ s2' = [s2 EXCEPT ![st.x] = w]
+          ELSE IF st.op = "callx"     \* external call: the same arbitrary outputs in both copies
+          THEN \E w1 \in RangeOf(P, st.lhs[1]) : \E w2 \in RangeOf(P, st.lhs[Len(st.lhs)]) :
+                  LET upd(s) == [[s EXCEPT ![st.lhs[1]] = w1] EXCEPT ![st.lhs[Len(st.lhs)]] = w2]
+                  IN (Len(st.lhs) = 2 \/ w1 = w2) /\ s1' = upd(s1) /\ s2' = upd(s2)
+          ELSE /\ s1' \in Succ(st, s1, U, LAMBDA x : RangeOf(P, x))
+               /\ s2' \in Succ(st, s2, U, LAMBDA x : RangeOf(P, x))
   /\ i' = i + 1 /\ n' = n + 1
   /\ UNCHANGED <<p, ob, v, b>>
 Goto == /\ AtEnd /\ n < MaxSteps
@@ -58,9 +63,11 @@ Goto == /\ AtEnd /\ n < MaxSteps
 Next == StepBoth \/ Goto
 Spec == Init /\ [][Next]_vars
 
-CondOf(st, s) == IF st.op \in {"assume", "assert"} THEN Holds(st.c, s) ELSE TRUE
+CondOf(st, s) == IF st.op \in {"assume", "assert"} THEN Holds(st.c, s)
+                 ELSE IF st.op = "bassume" THEN s[st.x] = (IF st.neg = 1 THEN 0 ELSE 1)
+                 ELSE IF st.op = "bassert" THEN s[st.x] = 1 ELSE TRUE
 (* conditions taken and assertion outcomes agree *)
-SameOutcomes == (~AtEnd /\ Stmts[i].op \in {"assume", "assert"}) => (CondOf(Stmts[i], s1) = CondOf(Stmts[i], s2))
+SameOutcomes == (~AtEnd /\ Stmts[i].op \in {"assume", "assert", "bassume", "bassert"}) => (CondOf(Stmts[i], s1) = CondOf(Stmts[i], s2))
 (* function outputs agree at the end of the exit block *)
 SameOutputs == (AtEnd /\ b = P.exit) => \A k \in DOMAIN P.outs : s1[P.outs[k]] = s2[P.outs[k]]
 
